@@ -69,6 +69,7 @@ def run(db, chk):
     from props import _fan
     for pat, label in ((r"^gix_pack::index::access::lookup$", "index::access::lookup"), (r"^gix_pack::index::access::lookup_prefix$", "index::access::lookup_prefix")):
         _fan.fan_bounds(chk, db.one(pat), label)
+    _fan.fan_index_rule(db, chk, ["gix_pack"], 4)
 
 
 def midx_high_bit_rule(db, chk):
